@@ -25,7 +25,52 @@ pub fn err_class(e: &ZipError) -> &'static str {
     }
 }
 
+/// read an entry to its end; successive calls rotate through the ways a caller may do that (a read loop, read_to_end, a few bytes
+/// through read and the rest through read_to_end, io::copy, read_exact of a first half and a loop) - they must all agree
 fn read_all(f: &mut dyn Read) -> (String, u64, u32, String) {
+    use std::sync::atomic::{AtomicUsize, Ordering};
+    static WAY: AtomicUsize = AtomicUsize::new(0);
+    let way = WAY.fetch_add(1, Ordering::Relaxed) % 5;
+    if way != 0 {
+        let mut v: Vec<u8> = vec![];
+        let r = match way {
+            1 => f.read_to_end(&mut v).map(|_| ()),
+            2 => {
+                let mut head = [0u8; 3];
+                match f.read(&mut head) {
+                    Ok(k) => {
+                        v.extend_from_slice(&head[..k]);
+                        f.read_to_end(&mut v).map(|_| ())
+                    }
+                    Err(e) => Err(e),
+                }
+            }
+            3 => std::io::copy(f, &mut v).map(|_| ()),
+            _ => {
+                let mut one = [0u8; 1];
+                match f.read(&mut one) {
+                    Ok(k) => {
+                        v.extend_from_slice(&one[..k]);
+                        let mut again = vec![];
+                        let r = f.read_to_end(&mut again).map(|_| ());
+                        v.extend(again);
+                        // at end-of-file another read_to_end delivers nothing more
+                        let mut more = vec![];
+                        let r2 = if r.is_ok() { f.read_to_end(&mut more).map(|_| ()) } else { Ok(()) };
+                        v.extend(more);
+                        r.and(r2)
+                    }
+                    Err(e) => Err(e),
+                }
+            }
+        };
+        let mut c = Crc::new();
+        c.update(&v);
+        return match r {
+            Ok(()) => ("ok".into(), v.len() as u64, c.finish(), String::new()),
+            Err(e) => ("err".into(), v.len() as u64, c.finish(), e.to_string()),
+        };
+    }
     let mut buf = vec![0u8; 1 << 16];
     let (mut n, mut c) = (0u64, Crc::new());
     loop {
